@@ -1,6 +1,9 @@
 /-
 C08 — reproducible builds: same sources and settings give the same archive *description*.
 
+Two descriptions of a wheel are used: `describeWheel` (what the writers' bookkeeping produces) and `describeWheelC` (the
+wheel `build` really leaves behind: since repo fix a8f41e9 a writer refuses a name that is already in the archive, so
+there is a description only when all targets are distinct); every invariance theorem is stated for both.
 The description of a wheel is the ordered member list (path, external attributes, digest, size) with the one zip
 date-time; of an sdist the gzip header mtime and the ordered cleaned tar headers (name, mode, uid, gid, uname, gname,
 mtime, size, digest).  Proved here for all trees / permutations / metadata: the description does not depend on the
@@ -26,21 +29,10 @@ theorem build_perm_invariant (H : String → String) (sde : Option String) (p : 
     (ht : tree'.Perm tree) (hd : di'.Perm p.diFiles)
     (ndt : (tree.map (·.rel)).Nodup) (ndd : (p.diFiles.map (·.rel)).Nodup) :
     describeWheel H sde { p with toAdd := selectWheel rules tree', diFiles := di' } =
-    describeWheel H sde { p with toAdd := selectWheel rules tree } := by
-  apply describeWheel_congr
-  unfold buildWheel
-  have h1 : copyModuleOps p.root (selectWheel rules tree') = copyModuleOps p.root (selectWheel rules tree) := by
-    unfold copyModuleOps
-    rw [if_pos gen_sorted.1, if_pos gen_sorted.1, sortBy_root, sortBy_root]
-    have ndt' : (tree'.map (·.rel)).Nodup := (ht.map _).nodup_iff.2 ndt
-    have hp : (selectWheel rules tree').Perm (selectWheel rules tree) := List.Perm.filterMap _ ht
-    rw [sortBy_perm _ _ _ hp (selectWheel_inj rules tree' ndt')]
-  have h2 : copyDistInfoOps p.diSource p.distInfo di' = copyDistInfoOps p.diSource p.distInfo p.diFiles := by
-    unfold copyDistInfoOps
-    rw [if_pos gen_sorted.2.1, if_pos gen_sorted.2.1, sortBy_root, sortBy_root]
-    have ndd' : (di'.map (·.rel)).Nodup := (hd.map _).nodup_iff.2 ndd
-    rw [sortBy_perm _ _ _ hd (inj_of_nodup_map _ _ ndd')]
-  simp only [wheelOps, h1, h2]
+      describeWheel H sde { p with toAdd := selectWheel rules tree } ∧
+    describeWheelC H sde { p with toAdd := selectWheel rules tree', diFiles := di' } =
+      describeWheelC H sde { p with toAdd := selectWheel rules tree } :=
+  describe_both_congr H sde _ _ rfl (by rw [perm_members_eq p rules tree tree' di' ht hd ndt ndd])
 
 example : ([⟨["b.py"], 33188, 0, 0, "", "", 5, "Hb", 1⟩, ⟨["a", "x.py"], 33188, 0, 0, "", "", 7, "Ha", 2⟩] : List FileEntry).Perm
     [⟨["a", "x.py"], 33188, 0, 0, "", "", 7, "Ha", 2⟩, ⟨["b.py"], 33188, 0, 0, "", "", 5, "Hb", 1⟩] :=
@@ -69,13 +61,10 @@ theorem build_meta_invariant (H : String → String) (sde : Option String) (p : 
     (tree : List FileEntry) (root' : PathKey) (g : FileEntry → FileEntry)
     (hg : ∀ f, (g f).rel = f.rel ∧ (g f).digest = f.digest ∧ (g f).size = f.size ∧ ModeEquiv (g f).stMode f.stMode) :
     describeWheel H sde { p with root := root', toAdd := selectWheel rules (tree.map g) } =
-    describeWheel H sde { p with toAdd := selectWheel rules tree } := by
-  apply describeWheel_congr
-  refine buildWheel_congr H _ _ (by rfl) ?_
-  simp only [wheelOps]
-  cases p.editable
-  · simp only [Bool.false_eq_true, if_false, List.map_append, copyModule_members, selectWheel_map rules tree g hg]
-  · rfl
+      describeWheel H sde { p with toAdd := selectWheel rules tree } ∧
+    describeWheelC H sde { p with root := root', toAdd := selectWheel rules (tree.map g) } =
+      describeWheelC H sde { p with toAdd := selectWheel rules tree } :=
+  describe_both_congr H sde _ _ rfl (meta_members_eq p rules tree root' g hg)
 
 example : ModeEquiv 0o100600 0o100664 ∧ ModeEquiv 0o100700 0o100775 ∧ ¬ ModeEquiv 0o100644 0o100744 := by
   unfold ModeEquiv; decide
@@ -108,13 +97,18 @@ theorem sdist_scrubbed (sde : Option String) (p : SdistPlan) :
 unset or not an integer; for an integer `t` (inside `time.gmtime`'s range) the default when `t` lies before
 1980-01-01T00:00:00Z = 315532800, and `gmtime t` otherwise. -/
 theorem wheel_time (H : String → String) (sde : Option String) (p : WheelPlan) :
-    (∀ es, describeWheel H sde p = .ok es → ∃ dt, zipfileDateTime sde = .ok dt ∧ ∀ e ∈ es, e.dateTime = dt) ∧
+    (∀ es, (describeWheel H sde p = .ok es ∨ describeWheelC H sde p = .ok es) →
+      ∃ dt, zipfileDateTime sde = .ok dt ∧ ∀ e ∈ es, e.dateTime = dt) ∧
     zipfileDateTime none = .ok wheelDefault ∧
     (∀ s, pyInt s = none → zipfileDateTime (some s) = .ok wheelDefault) ∧
     (∀ s t dt, pyInt s = some t → gmtime t = .ok dt →
       zipfileDateTime (some s) = .ok (if t < 315532800 then wheelDefault else dt)) := by
   refine ⟨?_, rfl, ?_, ?_⟩
-  · intro es h
+  · intro es h0
+    have h : describeWheel H sde p = .ok es := by
+      rcases h0 with h | h
+      · exact h
+      · exact (describeWheelC_ok H sde p es h).1
     unfold describeWheel at h
     cases hz : zipfileDateTime sde with
     | error e => simp [hz] at h
@@ -195,7 +189,9 @@ def rebuild_idempotent_full_statement : Prop :=
 theorem rebuild_idempotent_partial (H : String → String) (sde : Option String) (p : WheelPlan) (rules : List IncludeRule)
     (tree extra : List FileEntry) (hx : ∀ f ∈ extra, ∀ r ∈ rules, r.sel f.rel = false) :
     describeWheel H sde { p with toAdd := selectWheel rules (tree ++ extra) } =
-    describeWheel H sde { p with toAdd := selectWheel rules tree } := by
+      describeWheel H sde { p with toAdd := selectWheel rules tree } ∧
+    describeWheelC H sde { p with toAdd := selectWheel rules (tree ++ extra) } =
+      describeWheelC H sde { p with toAdd := selectWheel rules tree } := by
   have : selectWheel rules (tree ++ extra) = selectWheel rules tree := by
     unfold selectWheel
     rw [List.filterMap_append]
@@ -207,7 +203,7 @@ theorem rebuild_idempotent_partial (H : String → String) (sde : Option String)
         rw [List.find?_eq_none]; intro r hr; simp [hx f hf r hr]
       simp [this]
     rw [this, List.append_nil]
-  rw [this]
+  rw [this]; exact ⟨rfl, rfl⟩
 
 /-- **Rebuild idempotence, discharged for glob rules.**  Let every include rule be a glob rule (`packages` / `include`
 entries and the fixed legal-file patterns: base directory + parsed pattern).  Left-overs of an earlier build are files
@@ -221,7 +217,9 @@ theorem rebuild_idempotent (H : String → String) (sde : Option String) (p : Wh
     (hx : ∀ f ∈ extra, isLeftover tops f.rel = true)
     (hav : ∀ g ∈ specs, ∀ D ∈ tops, g.avoids D = true) :
     describeWheel H sde { p with toAdd := selectWheel (specs.map globRule) (tree ++ extra) } =
-    describeWheel H sde { p with toAdd := selectWheel (specs.map globRule) tree } := by
+      describeWheel H sde { p with toAdd := selectWheel (specs.map globRule) tree } ∧
+    describeWheelC H sde { p with toAdd := selectWheel (specs.map globRule) (tree ++ extra) } =
+      describeWheelC H sde { p with toAdd := selectWheel (specs.map globRule) tree } := by
   apply rebuild_idempotent_partial
   intro f hf r hr
   obtain ⟨g, hg, rfl⟩ := List.mem_map.1 hr
